@@ -757,12 +757,12 @@ namespace bloch::compiler {
         bool typeAhead = isTypeAhead();
 
         // Match primitive declarations or annotated declarations
-        if (check(TokenType::At) || typeAhead) {
-            if (isFinal && !typeAhead && !check(TokenType::At)) {
-                reportError("Expected variable type after 'final'");
-            }
+        if (check(TokenType::At) || typeAhead)
             return parseVariableDeclaration(isFinal);
-        }
+        // 'final' only ever introduces a declaration. The test used to sit inside the branch
+        // above, where it could not fire, so 'final n = 1;' was read as 'n = 1;'.
+        if (isFinal)
+            reportError("Expected variable type after 'final'");
 
         // Standard statements
         if (match(TokenType::Return))
